@@ -48,6 +48,7 @@ type Work struct {
 	ResBuf     int    `json:"res_buf,omitempty"`     // buffer of the pool's result channel (0 = 2)
 	AnonSend   bool   `json:"anon_send,omitempty"`   // sends go through an anonymous call site shared by several goroutines
 	Nils       bool   `json:"nils,omitempty"`        // interface channels also carry nil items
+	ListForm   int    `json:"list_form,omitempty"`   // with ListClose: 0 the joiner indexes the list itself, 1 it gets the list ELEMENTS as parameters and uses the receive statement on them
 	ListClose  bool   `json:"list_close,omitempty"`  // the first channel is also kept in a list and closed through the list element
 	LocalName  int    `json:"local_name,omitempty"`  // >0: the per-invocation variable of workers / relays has an everyday name (timeout, done, reply ...); the environment also carries the core builtins
 	OddShift   int    `json:"odd_shift,omitempty"`   // which odd item comes first
@@ -145,6 +146,9 @@ func (Prop) Gen(seed int64, tier string) *harness.Case {
 		w.LocalName = 1 + r.Intn(len(localNames))
 	}
 	w.ListClose = r.Intn(4) == 0
+	if w.ListClose {
+		w.ListForm = r.Intn(2)
+	}
 	w.Dispatch = w.Workers <= 1 && !w.Relay && r.Intn(5) == 0
 	w.DispForm = r.Intn(4)
 	if r.Intn(5) == 0 {
@@ -597,7 +601,10 @@ func Render(w *Work) string {
 			b.WriteString("pid = 77\n")
 		}
 	}
-	if w.ListClose {
+	if w.ListClose && w.ListForm == 1 {
+		// ... and whichever way it reaches a function: parameters bound from list elements, used by the receive STATEMENT
+		fmt.Fprintf(&b, "chl = [ch0, dn]\ngo func(jc, jd) {\nfor k = 0; k < %d; k++ {\njv, jok = <-jd\nif !jok { break }\n}\nvar je = jd\njw = 0\nif false { jw = <-je }\ncl0 = true\nclose(jc)\n}(chl[0], chl[1])\n", np)
+	} else if w.ListClose {
 		// a channel is the same channel wherever the script keeps it
 		fmt.Fprintf(&b, "chl = [ch0, dn]\ngo func() {\nfor k = 0; k < %d; k++ { <-chl[1] }\ncl0 = true\nclose(chl[0])\n}()\n", np)
 	} else {
